@@ -321,3 +321,7 @@ func (w *World) ReopenAfterStop() error {
 	w.I = i
 	return nil
 }
+
+// UseOracleChain lets the wallet's server hand out the process-wide oracle chain object
+// (scheduler scenarios that start the handler thousands of times; no relayed transactions).
+func (w *World) UseOracleChain() { w.N.FixBlockchain(oracle()) }
